@@ -20,6 +20,7 @@ from __future__ import annotations
 import json
 import os
 import random
+import re
 import time
 from concurrent.futures import ProcessPoolExecutor, ThreadPoolExecutor, wait
 from pathlib import Path
@@ -107,6 +108,29 @@ def _run_pool(jobs, ctx, budget_s, batch=12):
         res.setdefault(j["id"], {"id": j["id"], "status": "timeout", "events": [], "nres": 0, "msg": "batch unfinished",
                                  "hdr": {}})
     return res
+
+
+_AT = re.compile(r'<<"AT", (\d+), (\d+)>>')
+
+
+def _diagnose(rejected, scratch):
+    """One TLC run (MBV_PROGRESS=1) over all rejected traces: index of the first event TLC refuses, per trace."""
+    if not rejected:
+        return []
+    f = scratch / "rejected-traces.json"
+    f.write_text(json.dumps(rejected))
+    r = run_tlc("IfaceTrace", "SPECIFICATION TraceSpec\nCONSTANTS Deviations = {}\nCONSTRAINT TraceAccept\n", scratch=scratch,
+                workers=1, timeout=900, env={"TRACE_FILE": str(f), "MBV_PROGRESS": "1"}, expect_fail=True, keep_going=True)
+    reached = {}
+    for tid, l in _AT.findall(r.output):
+        reached[int(tid)] = max(reached.get(int(tid), 1), int(l))
+    out = []
+    for k, t in enumerate(rejected, start=1):
+        idx = reached.get(k, 1) - 1
+        if idx >= len(t["ev"]):
+            raise MachineryError(f"trace {t['id']} was rejected in the batch but is accepted alone")
+        out.append(idx)
+    return out
 
 
 def _describe(e):
@@ -288,34 +312,29 @@ def run(ctx):
     traces = [t for t, _ in traces_nonempty]
     owner = [o for _, o in traces_nonempty]
     br = validate("IfaceTrace", "SPECIFICATION TraceSpec\nCONSTANTS Deviations = {}\nCONSTRAINT TraceAccept\n", traces,
-                  scratch=ctx.scratch, parallel=12, min_chunk=150, timeout=900, diagnose=6)
+                  scratch=ctx.scratch, parallel=12, min_chunk=150, timeout=900, diagnose=0)
     ev.tlc_counts("IfaceTrace: recorded accessor protocols validated", br.distinct, br.states, br.wall_s)
     ctx.log(f"IfaceTrace validated {len(traces)} traces in {br.wall_s:.1f}s")
 
     # ------------------------------------------------------------------ 4. verdicts
     n_events = 0
-    reported = set()
-    for t, (j, r, k0), tv in zip(traces, owner, br.verdicts):
+    rej = [i for i, tv in enumerate(br.verdicts) if not tv.accepted]
+    first_bad = dict(zip(rej, _diagnose([traces[i] for i in rej], ctx.scratch)))
+    for i, (t, (j, r, k0), tv) in enumerate(zip(traces, owner, br.verdicts)):
         m = meta[j["id"]]
         if tv.accepted:
             v.ok(tv.length)
             n_events += tv.length
             continue
-        if tv.reached < 0:
-            # not diagnosed by TLC (more than `diagnose` rejected traces in the chunk): name the trace only
-            e, idx = None, -1
-        else:
-            idx = min(tv.reached, len(t["ev"]) - 1)
-            e = r["events"][k0 + idx]
-        what = _describe(e) if e else "accessor protocol trace rejected by IfaceTrace.tla (event not diagnosed)"
+        idx = first_bad[i]
+        e = r["events"][k0 + idx]
+        what = _describe(e)
         src = m.get("file") or f"generated {m['fmt']} document"
-        key = (m["kind"], m.get("fmt") or m.get("file"), e["a"] if e else "?", (e or {}).get("field"), (e or {}).get("exc"))
         inp = {"kind": m["kind"], "input": src, "mutation": r.get("msg", "") if m["kind"] == "mutant" else "",
                "path_argument": r.get("parg"), "abstract": m.get("abstract"), "props": j.get("props")}
         v.violation(what=f"[{m['kind']}: {src}{' ' + r.get('msg', '') if m['kind'] == 'mutant' else ''}] {what}",
                     case={"input": inp, "event": e, "trace": t["id"], "event_index": k0 + idx},
                     where="data_types.py accessor / extractor metadata reader")
-        reported.add(key)
     ev.replayed(len(traces))
     for j in jobs:
         m, r = meta[j["id"]], results[j["id"]]
